@@ -12,7 +12,7 @@ MANIFEST = dict(
          "by themselves without failures produce, for every node, exactly the outputs of the reference evaluation "
          "in dependency order (C17_reference_equation characterises it); C17_confluence_total removes the "
          "'end by themselves' hypothesis (every node >= 1 job, max_concurrent >= 1, fuel >= |jobs|+1: both loops "
-         "terminate for every oracle). C17_confluence_with_failures: when some jobs fail, every job that is not downstream of a failure and does not fail itself has the reference value in every run that ends by itself, whatever the oracle / max_concurrent. C17_sync_reference_any: sequential loop, zero-job nodes anywhere, outputs = reference outputs within 2(|jobs|+|nodes|)+3 passes. What the model cannot exhibit: the real "
+         "terminate for every oracle). C17_confluence_with_failures: when some jobs fail, every job that is not downstream of a failure and does not fail itself has the reference value in every run that ends by itself, whatever the oracle / max_concurrent. C17_sync_reference_any: sequential loop, zero-job nodes anywhere, outputs = reference outputs within 2(|jobs|+|nodes|)+3 passes. C17_async_reference_bounded_empty: the same for the asynchronous loop with fewer than ten empty nodes. What the model cannot exhibit: the real "
          "process pool's timing, cloudpickle transport of jobs and results between processes, file-system latency — "
          "these are covered only by the correspondence run: generated workflows executed with the debug worker, the "
          "controlled fake worker (several oracles, k) and the cf worker with 1-8 processes and several "
